@@ -2,11 +2,14 @@
    Proved: no substitution can fail for a nullable pattern (every generated pattern is non-nullable; the AS pattern is non-nullable for non-empty
    numerals); the $9$ decoder fails only with ValueError (which _anonymize_value catches) and the $9$ encoder never fails on a pseudonym, for EVERY
    salt string; the address memo never raises from any reachable state (C03).  Not proved: that a capture group used by replace_matching_item
-   always participates in its match (55 regexes); passlib's totality on its documented domain. *)
+   always participates in its match (55 regexes); passlib's totality on its documented domain.
+   Proved in addition (TotalProofs): _anonymize_value -- the function every recognised secret goes through -- returns a result for EVERY raw value, lookup
+   table, reserved list and salt, or reports that the passlib oracle table of the case lacks an entry; it keeps the lookup a table of byte strings. *)
 From Coq Require Import String.
 From Coq Require Import List Bool Arith NArith ZArith.
 Import ListNotations.
 Require Import Str Rx RxFacts G_rx JunModel JunProofs TextModel TextProofs Memo MemoProofs.
+Require TotalProofs.
 
 Theorem C14_generated_patterns_are_non_nullable : all_sub_patterns_non_nullable = true.
 Proof. exact generated_patterns_non_nullable. Qed.
@@ -27,8 +30,22 @@ Proof. exact fresh_history. Qed.
 Theorem C14_as_pattern_non_nullable : forall nums, nums <> [] -> Forall (fun s => s <> []) nums -> nullable (as_rx nums) = false.
 Proof. exact as_regex_non_nullable. Qed.
 
+(* every value juniper_decrypt accepts is classified as type 9 by the GENERATED format function (so the re-decryption of the replacement cannot fail) *)
+Theorem C14_decryptable_values_are_classified_juniper : forall val d, JunModel.decrypt val = JOk d -> check_format val = F_JUNIPER.
+Proof. exact TotalProofs.decrypt_ok_is_juniper. Qed.
+
+Theorem C14_anonymize_value_never_raises : forall orc raw lookup reserved salt,
+  TotalProofs.table_bytes orc -> TotalProofs.table_bytes lookup ->
+  match anonymize_value orc raw lookup reserved salt with
+  | Done r => TotalProofs.table_bytes (snd r)
+  | Raised e => e = lit "ORACLE-MISS"
+  end.
+Proof. exact TotalProofs.anonymize_value_never_raises. Qed.
+
 Print Assumptions C14_generated_patterns_are_non_nullable.
 Print Assumptions C14_juniper_decrypt_fails_only_with_ValueError.
 Print Assumptions C14_juniper_encrypt_total_for_every_salt.
 Print Assumptions C14_address_memo_never_raises.
 Print Assumptions C14_as_pattern_non_nullable.
+Print Assumptions C14_decryptable_values_are_classified_juniper.
+Print Assumptions C14_anonymize_value_never_raises.
